@@ -175,6 +175,41 @@ func (v *Verifier) prelude(theory string) string {
 		fmt.Fprintf(&sb, "(assert (distinct %s))\n", strings.Join(names, " "))
 	}
 	sb.WriteString("(assert (forall ((t Int)) (! (= (errIs 0 t) (= t 0)) :pattern ((errIs 0 t)))))\n")
+	// normalisation of a Go value to an index key (table of newIndexedField)
+	tag := func(k types.BasicKind) string { return typeTag(types.Typ[k]).S }
+	isT := func(k types.BasicKind) string {
+		return fmt.Sprintf("(and ((_ is VOther) v) (= (vtag v) %s))", tag(k))
+	}
+	timeTag := "0"
+	if tt, err := types.Eval(v.prog.Fset, v.pkg.Pkg, 0, "timeType"); err == nil && tt.Type != nil {
+		// timeType is a reflect.Type variable; the tag of time.Time itself is needed
+	}
+	for _, imp := range v.pkg.Pkg.Imports() {
+		if imp.Path() == "time" {
+			if o := imp.Scope().Lookup("Time"); o != nil {
+				timeTag = typeTag(o.Type()).S
+			}
+		}
+	}
+	fmt.Fprintf(&sb, "(declare-fun unixnano (Int) Int)\n(declare-fun payf64 (Int) F64)\n(assert (forall ((x F64)) (! (= (payf64 (f64pay x)) x) :pattern ((f64pay x)))))\n")
+	fmt.Fprintf(&sb, "(assert (forall ((x Int)) (! (and (<= (- 9223372036854775808) (unixnano x)) (<= (unixnano x) 9223372036854775807)) :pattern ((unixnano x)))))\n")
+	uints := []types.BasicKind{types.Uint8, types.Uint16, types.Uint32, types.Uint}
+	ints := []types.BasicKind{types.Int8, types.Int16, types.Int32, types.Int}
+	var isU, isI []string
+	for _, k := range uints {
+		isU = append(isU, isT(k))
+	}
+	for _, k := range ints {
+		isI = append(isI, isT(k))
+	}
+	isF32 := isT(types.Float32)
+	isTime := fmt.Sprintf("(and ((_ is VOther) v) (= (vtag v) %s))", timeTag)
+	fmt.Fprintf(&sb, "(define-fun normable ((v Val)) Bool (or ((_ is VInt) v) ((_ is VUint) v) ((_ is VFloat) v) ((_ is VStr) v) %s %s %s %s))\n",
+		strings.Join(isU, " "), strings.Join(isI, " "), isF32, isTime)
+	fmt.Fprintf(&sb, "(define-fun norm ((v Val)) Val (ite (or %s) (VUint (vpay v)) (ite (or %s) (VInt (vpay v)) (ite %s (VFloat (payf64 (vpay v))) (ite %s (VInt (unixnano (vpay v))) v)))))\n",
+		strings.Join(isU, " "), strings.Join(isI, " "), isF32, isTime)
+	fmt.Fprintf(&sb, "(define-fun supported ((v Val)) Bool (and (normable v) (not (isnan (norm v)))))\n")
+	fmt.Fprintf(&sb, "(define-fun castRank ((c String)) Int (ite (= c \"int64\") 1 (ite (= c \"uint64\") 2 (ite (= c \"float64\") 3 (ite (= c \"string\") 4 0)))))\n")
 	switch theory {
 	case "concrete":
 		sb.WriteString(preludeOrderConcrete)
